@@ -1068,6 +1068,12 @@ func (h *harness) finalChecks(flushed bool) {
 			if flushed && !teardown && !writing && rd.drained && !rd.closeInvoked && !wr.closeInvoked && rd.readPos == wr.written && len(h.inflight) == 0 {
 				if credit, initial, known := h.mon.window(wn, id); known {
 					s.Count("probe.window_conservation_checked", 1)
+					if credit < initial {
+						// Lost credit is a hang in waiting: once it adds up to
+						// the whole window the writer blocks for good although
+						// the reader consumes everything (C25).
+						s.Violate("C25", "send-window-lost", "final", "stream %d: side %s has read all %d bytes side %s wrote and the carrier is idle, yet %s's send window is %d bytes instead of %d: flow-control credit was lost, and a writer whose credit is gone never unblocks", id, rn, rd.readPos, wn, wn, credit, initial)
+					}
 					if credit != initial {
 						s.Violate("C23", "window-credit-not-conserved", "final", "stream %d: side %s has read all %d bytes side %s wrote and the carrier is idle, yet %s holds a send window of %d bytes instead of the %d it was granted (flow-control credit lost or invented)", id, rn, rd.readPos, wn, wn, credit, initial)
 					}
